@@ -215,11 +215,17 @@ func (w *world) checkCrashImage(seq *Seq, k, opIdx int, img db.KeyValueStore, wi
 		c.Violation(class, what+"the next block cannot be stored: "+nsErr.Error(), cs, false)
 	case !evOK:
 		class := "crash:event-query-differs:" + kind
-		if hasSnap && !disciplined {
+		if !disciplined && (hasSnap || (withModel && mflags[2] != "1")) {
 			// what survives the repair: a snapshot written in the middle of the process's life
-			// (Blockchain.WriteRunningEventFilter before shutdown) and a later revert of a block it covers
+			// (Blockchain.WriteRunningEventFilter before shutdown) and a later revert of a block it covers. The
+			// snapshot may no longer be in the image: a restarted process accepted (and consumed) it and the stale
+			// columns were persisted with the window at the next window end - the model of the repaired code
+			// predicts exactly that false negative for this undisciplined history (index_covers = 0)
 			class = "crash:stale-filter-snapshot:event-false-negatives"
 			c.Hist["stale-midlife-snapshot-accepted-by-fresh-process"]++
+			if !hasSnap {
+				c.Hist["stale-midlife-snapshot-persisted-with-the-window"]++
+			}
 		} else if hasSnap {
 			// a snapshot that the restart following it should have consumed (repaired in /repo): not known
 			class = "crash:stale-shutdown-snapshot:event-false-negatives"
